@@ -74,15 +74,16 @@ Qed.
 
 (* ~memory on a wrapper that points nowhere: removeMemoryRef returns at once *)
 Lemma inv_unbind_null s ths t th0 rest v h :
-  Inv s ths -> nth_error ths t = Some th0 -> cur th0 = PIdle ->
+  Inv s ths -> nth_error ths t = Some th0 ->
+  hm (cur th0) = None -> hb (cur th0) = None -> (forall s1, pend s1 (cur th0) = 0%Z) ->
   vars s t v = Some h -> hptr s h = None ->
   Inv (set_vars s (upd2 (vars s) t v None)) (upd_nth ths t (at_pc PIdle rest)).
 Proof.
-  intros HI Ht Hc Hv Hh.
+  intros HI Ht Hm0 Hb0 Hp0 Hv Hh.
   pose proof (bound_unbind s t v h (i_vars_inj _ _ HI) Hv) as Hb.
   assert (Hcnt : (bytes s + sum_pend (set_vars s (upd2 (vars s) t v None)) (upd_nth ths t (at_pc PIdle rest)) =
                   live_bytes (set_vars s (upd2 (vars s) t v None)) (nb s))%Z).
-  { rewrite (sum_pend_upd _ _ _ _ _ Ht). rewrite Hc. cbn [pend cur at_pc].
+  { rewrite (sum_pend_upd _ _ _ _ _ Ht). rewrite Hp0. cbn [pend cur at_pc].
     rewrite (sum_pend_ext s) by (intros; now apply pend_stable).
     rewrite (live_bytes_ext s); [pose proof (i_bytes _ _ HI); lia|]. intros; now split. }
   pose proof HI as HI0. destruct HI. constructor; simpl_st; try assumption.
@@ -96,10 +97,10 @@ Proof.
     destruct (upd2_cases (vars s) t v None a' b') as [(-> & -> & E')|(Hd' & E')]; rewrite E' in H'; [discriminate|].
     eapply i_vars_inj; eassumption.
   - intros m h'. rewrite Hb, i_mring. split; [|tauto]. intros [A B]. repeat split; try assumption. intros ->. congruence.
-  - intros m Ha Hr. apply (held_upd_eq hm _ _ _ _ Ht m); [now rewrite Hc|now apply i_mheld].
-  - apply (disj_upd_eq hm _ _ _ _ Ht); [now rewrite Hc|assumption].
-  - intros b Ha Hr. apply (held_upd_eq hb _ _ _ _ Ht b); [now rewrite Hc|now apply i_bheld].
-  - apply (disj_upd_eq hb _ _ _ _ Ht); [now rewrite Hc|assumption].
+  - intros m Ha Hr. apply (held_upd_eq hm _ _ _ _ Ht m); [now rewrite Hm0|now apply i_mheld].
+  - apply (disj_upd_eq hm _ _ _ _ Ht); [now rewrite Hm0|assumption].
+  - intros b Ha Hr. apply (held_upd_eq hb _ _ _ _ Ht b); [now rewrite Hb0|now apply i_bheld].
+  - apply (disj_upd_eq hb _ _ _ _ Ht); [now rewrite Hb0|assumption].
 Qed.
 
 (* ~memory: the variable is gone, modeMemory->removeMemoryRef(this) under the ring's lock,
@@ -110,12 +111,13 @@ Definition drop_state (s : st) (t v h m : nat) : st :=
   set_mring s (upd (mring s) m (ring_rem h (mring s m))).
 
 Lemma inv_drop s ths t th0 rest v h m :
-  Inv s ths -> nth_error ths t = Some th0 -> cur th0 = PIdle ->
+  Inv s ths -> nth_error ths t = Some th0 ->
+  hm (cur th0) = None -> hb (cur th0) = None -> (forall s1, pend s1 (cur th0) = 0%Z) ->
   vars s t v = Some h -> hptr s h = Some m ->
   Inv (drop_state s t v h m)
       (upd_nth ths t (at_pc (PDrop1 m (Some (is_nil (ring_rem h (mring s m))))) rest)).
 Proof.
-  intros HI Ht Hc Hv Hh.
+  intros HI Ht Hm0 Hb0 Hp0 Hv Hh.
   pose proof (bound_unbind s t v h (i_vars_inj _ _ HI) Hv) as Hb.
   assert (Hin : In h (mring s m)). { apply (i_mring _ _ HI). split; [assumption|]. now exists t, v. }
   assert (Hne : mring s m <> []). { intros E. rewrite E in Hin. destruct Hin. }
@@ -126,7 +128,7 @@ Proof.
   set (r := is_nil (ring_rem h (mring s m))).
   assert (Hcnt : (bytes s + sum_pend (drop_state s t v h m) (upd_nth ths t (at_pc (PDrop1 m (Some r)) rest)) =
                   live_bytes (drop_state s t v h m) (nb s))%Z).
-  { rewrite (sum_pend_upd _ _ _ _ _ Ht). rewrite Hc. cbn [pend cur at_pc].
+  { rewrite (sum_pend_upd _ _ _ _ _ Ht). rewrite Hp0. cbn [pend cur at_pc].
     rewrite (sum_pend_ext s) by (intros; now apply pend_stable).
     rewrite (live_bytes_ext s); [pose proof (i_bytes _ _ HI); lia|]. intros; now split. }
   assert (Hnd : NoDup (mring s m)) by apply (i_mring_nd _ _ HI).
@@ -154,13 +156,13 @@ Proof.
     intros _. now split.
   - intros m0 Ha. destruct (Nat.eq_dec m0 m) as [->|Hnm]; [rewrite upd_same|rewrite upd_other by assumption]; intros Hr.
     + assert (Er : r = true) by (now apply is_nil_true). rewrite Er.
-      apply (held_upd_gain hm _ _ _ _ Ht m m); [now rewrite Hc|reflexivity|now left].
+      apply (held_upd_gain hm _ _ _ _ Ht m m); [exact Hm0|reflexivity|now left].
     + pose proof (i_mheld m0 Ha Hr) as Hh0. destruct r.
-      * apply (held_upd_gain hm _ _ _ _ Ht m0 m); [now rewrite Hc|reflexivity|now right].
-      * apply (held_upd_eq hm _ _ _ _ Ht m0); [now rewrite Hc|assumption].
+      * apply (held_upd_gain hm _ _ _ _ Ht m0 m); [exact Hm0|reflexivity|now right].
+      * apply (held_upd_eq hm _ _ _ _ Ht m0); [now rewrite Hm0|assumption].
   - destruct r.
     + apply (disj_upd_new hm _ _ _ _ Ht m); [reflexivity|assumption|assumption].
-    + apply (disj_upd_eq hm _ _ _ _ Ht); [now rewrite Hc|assumption].
-  - intros b Ha Hr. apply (held_upd_eq hb _ _ _ _ Ht b); [rewrite Hc; now destruct r|now apply i_bheld].
-  - apply (disj_upd_eq hb _ _ _ _ Ht); [rewrite Hc; now destruct r|assumption].
+    + apply (disj_upd_eq hm _ _ _ _ Ht); [now rewrite Hm0|assumption].
+  - intros b Ha Hr. apply (held_upd_eq hb _ _ _ _ Ht b); [rewrite Hb0; now destruct r|now apply i_bheld].
+  - apply (disj_upd_eq hb _ _ _ _ Ht); [rewrite Hb0; now destruct r|assumption].
 Qed.
